@@ -14,6 +14,7 @@ From Coba Require C16.Run.
 From Coba Require C10.Run.
 From Coba Require C04.Run.
 From Coba Require C06.Run.
+From Coba Require C19.Run.
 Open Scope Z_scope.
 
 Definition dispatch (op : Z) (x : sx) : sx :=
@@ -31,5 +32,6 @@ Definition dispatch (op : Z) (x : sx) : sx :=
   | 10 => C10.Run.run x
   | 4 => C04.Run.run x
   | 6 => C06.Run.run x
+  | 19 => C19.Run.run x
   | _ => err 98
   end.
